@@ -32,9 +32,10 @@ class RefPolicy(Policy):
     inline_depth = 0
     emit_setitem = True
 
-    def __init__(self, raise_at_eval=False):
+    def __init__(self, raise_at_eval=False, raise_at_call=False):
         super().__init__(None)
         self.raise_at_eval = raise_at_eval
+        self.raise_at_call = raise_at_call
 
     def call_raises(self, interp, node, fname, fval, cfg):
         return ()
@@ -43,6 +44,9 @@ class RefPolicy(Policy):
         return ()
 
     def call(self, interp, node, fname, fval, args, kwargs, cfg, out):
+        if self.raise_at_call:
+            c0 = cfg.emit(("pycall", fval, tuple(args), tuple(("**" if k.startswith("**") else k, v) for k, v in kwargs.items())))
+            out.add("raise", c0.set("$exc", ExcV("Exception", f"call {fval!r}")))
         cfg = cfg.emit(("pycall", fval, tuple(args), tuple(("**" if k.startswith("**") else k, v) for k, v in kwargs.items())))
         return [(cfg, App("res", (Const("call_func"), fval)))]
 
@@ -93,6 +97,124 @@ class RefInterp(Interp):
                     res.append((c1, TRUE))
                 else:
                     self._cmp_chain(node, i + 1, right, c1, out, res, acc)
+
+    # statement leaves -------------------------------------------------------
+    def s_Expr(self, stmt, cfg):
+        if isinstance(stmt.value, ast.Name) and re.match(r"^s\d+$", stmt.value.id):
+            name = stmt.value.id
+            cfg = cfg.emit(("eval", name))
+            out = Out()
+            if self.policy.raise_at_eval:
+                out.add("raise", cfg.set("$exc", ExcV("Exception", f"eval {name}")))
+            out.add("normal", cfg)
+            out.add("return", cfg.set("$ret", Sym(("val", name, "EvalReturn"))))
+            if self.loop_depth > 0 or self.policy_allow_stray:
+                out.add("break", cfg.set("$flow", Const(name)))
+                out.add("continue", cfg.set("$flow", Const(name)))
+            return out
+        return super().s_Expr(stmt, cfg)
+
+    loop_depth = 0
+    policy_allow_stray = True
+
+    # try: handler types that are leaves may or may not match the raised exception
+    def _dispatch_handlers(self, stmt, cfg, exc, pending):
+        remaining = [cfg]
+        for h in stmt.handlers:
+            if not remaining:
+                break
+            nxt = []
+            for c in remaining:
+                branches = []
+                if h.type is None:
+                    branches.append((c, True))
+                else:
+                    sub = Out()
+                    for c1, tv in self.ev(h.type, c, sub):
+                        for kind in ("raise",):
+                            for cr in sub.get(kind):
+                                pending.add("raise", cr)
+                        branches.append((c1, True))
+                        branches.append((c1, False))
+                for c1, matched in branches:
+                    if not matched:
+                        nxt.append(c1)
+                        continue
+                    prev = c1.env.get("$handling")
+                    c1 = c1.set("$handling", c1.env.get("$exc"))
+                    if h.name:
+                        c1 = c1.emit(("store", h.name, c1.env.get("$exc"))).set(h.name, c1.env.get("$exc"))
+                    o = self.exec_block(h.body, [c1.unset("$exc")])
+                    for kind in Out.KINDS:
+                        for c2 in o.get(kind):
+                            if h.name:
+                                c2 = c2.emit(("delname", h.name)).unset(h.name)
+                            c2 = c2.set("$handling", prev) if prev is not None else c2.unset("$handling")
+                            pending.add(kind, c2)
+            remaining = nxt
+        pending.extend("raise", remaining)
+
+    # with: the context-manager protocol, one item at a time (language reference 8.5)
+    def s_With(self, stmt, cfg, is_async=False):
+        enter_attr = "__aenter__" if is_async else "__enter__"
+        exit_attr = "__aexit__" if is_async else "__exit__"
+        return self._with_item(stmt, 0, cfg, enter_attr, exit_attr)
+
+    def s_AsyncWith(self, stmt, cfg):
+        return self.s_With(stmt, cfg, is_async=True)
+
+    def _pycall(self, fval, args, cfg, out):
+        cfg = cfg.emit(("pycall", fval, tuple(args), ()))
+        if self.policy.raise_at_call:
+            out.add("raise", cfg.set("$exc", ExcV("Exception", f"call {fval!r}")))
+        return cfg, App("res", (Const("call_func"), fval, *args))
+
+    def _with_item(self, stmt, idx, cfg, enter_attr, exit_attr):
+        out = Out()
+        if idx == len(stmt.items):
+            return self.exec_block(stmt.body, [cfg])
+        item = stmt.items[idx]
+        for c, mgr in self.ev(item.context_expr, cfg, out):
+            enter = App("getattr", (App("type", (mgr,)), Const(enter_attr)))
+            exit_ = App("getattr", (App("type", (mgr,)), Const(exit_attr)))
+            c, val = self._pycall(enter, [mgr], c, out)
+            inner = Out()
+            if item.optional_vars is not None:
+                cs = self.assign(item.optional_vars, val, c, inner)
+            else:
+                cs = [c]
+            for c1 in cs:
+                inner.merge(self._with_item(stmt, idx + 1, c1, enter_attr, exit_attr))
+            for kind in ("normal", "return", "break", "continue"):
+                for c2 in inner.get(kind):
+                    c3, _ = self._pycall(exit_, [mgr, Const(None), Const(None), Const(None)], c2, out)
+                    out.add(kind, c3)
+            for c2 in inner.get("raise"):
+                exc = c2.env.get("$exc")
+                if isinstance(exc, ExcV) and exc.cls in ("CancelledError",):
+                    out.add("raise", c2)
+                    continue
+                c3, res = self._pycall(exit_, [mgr, App("excinfo", ())], c2.unset("$exc"), out)
+                for c4, t in self.truth(stmt, res, c3):
+                    if t:
+                        out.add("normal", c4)  # suppressed
+                    else:
+                        out.add("raise", c4.set("$exc", exc))
+        return out
+
+    def s_For(self, stmt, cfg):
+        self.loop_depth += 1
+        try:
+            return super().s_For(stmt, cfg)
+        finally:
+            self.loop_depth -= 1
+
+    def s_While(self, stmt, cfg):
+        self.loop_depth += 1
+        try:
+            return super().s_While(stmt, cfg)
+        finally:
+            self.loop_depth -= 1
 
     # stores --------------------------------------------------------------
     def assign(self, tgt, val, cfg, out):
@@ -207,9 +329,9 @@ class RefInterp(Interp):
         return [(c, v) for c, v in super().e_ListComp(node, cfg, out)]
 
 
-def run_reference(src, mode="eval", raise_at_eval=False):
+def run_reference(src, mode="eval", raise_at_eval=False, raise_at_call=False):
     tree = ast.parse(src, mode=mode)
-    interp = RefInterp(RefPolicy(raise_at_eval=raise_at_eval))
+    interp = RefInterp(RefPolicy(raise_at_eval=raise_at_eval, raise_at_call=raise_at_call))
     out = Out()
     if mode == "eval":
         for c, v in interp.ev(tree.body, Cfg(), out):
